@@ -349,12 +349,42 @@ fn build_engine(case: &Case) -> Result<Tera, String> {
     }
 }
 
+/// `oracle.ctx_extend` cases give two contexts in `ctx`: keys `t:<name>` are inserted into the
+/// target, keys `s:<name>` into the source, and the render context is `target.extend(source)`
 fn context_of(case: &Case) -> Context {
     let mut ctx = Context::new();
+    if case.stream == "oracle.ctx_extend" {
+        let mut source = Context::new();
+        for (k, v) in &case.ctx {
+            if let Some(n) = k.strip_prefix("t:") {
+                ctx.insert_value(n.to_string(), v.clone());
+            } else if let Some(n) = k.strip_prefix("s:") {
+                source.insert_value(n.to_string(), v.clone());
+            }
+        }
+        ctx.extend(source);
+        return ctx;
+    }
     for (k, v) in &case.ctx {
         ctx.insert_value(k.clone(), v.clone());
     }
     ctx
+}
+
+/// The render context by the documented rule (for the model): `extend` = the source wins on shared keys
+fn ctx_by_rule(case: &Case) -> Vec<(String, Value)> {
+    if case.stream != "oracle.ctx_extend" {
+        return case.ctx.clone();
+    }
+    let mut out: Vec<(String, Value)> = Vec::new();
+    for pass in ["t:", "s:"] {
+        for (k, v) in &case.ctx {
+            if let Some(n) = k.strip_prefix(pass) {
+                out.push((n.to_string(), v.clone()));
+            }
+        }
+    }
+    out
 }
 
 fn render_outcome(tera: &Tera, name: &str, ctx: &Context) -> String {
@@ -406,6 +436,22 @@ fn run_real(case: &Case) -> String {
                     }
                 } else {
                     render_outcome(&tera, &target, &context_of(case))
+                }
+            }
+            None if case.stream == "oracle.entry.render_to" => {
+                // the WRITER entry point
+                let ctx = context_of(case);
+                let mut buf: Vec<u8> = Vec::new();
+                match catch(std::panic::AssertUnwindSafe(|| tera.render_to(&case.templates[0].0, &ctx, &mut buf))) {
+                    Err(p) => format!("panic {p}"),
+                    Ok(Ok(())) => format!("ok {}", hex(&buf)),
+                    Ok(Err(e)) => {
+                        let msg = match e.kind() {
+                            tera::ErrorKind::RenderingError(r) => r.message().to_string(),
+                            _ => e.to_string(),
+                        };
+                        format!("err {}", classify(&msg))
+                    }
                 }
             }
             None => render_outcome(&tera, &case.templates[0].0, &context_of(case)),
@@ -481,7 +527,14 @@ fn model_request(case: &Case) -> Result<String, String> {
         for (k, v) in m {
             s.push_str(&format!(" n:{} {}", hex(k.as_bytes()), encode(v)));
         }
-        s.push_str(" G0");
+        let mut g: BTreeMap<&str, &Value> = BTreeMap::new();
+        for (k, v) in &case.global {
+            g.insert(k, v);
+        }
+        s.push_str(&format!(" G{}", g.len()));
+        for (k, v) in g {
+            s.push_str(&format!(" n:{} {}", hex(k.as_bytes()), encode(v)));
+        }
         return Ok(s);
     }
     let target = inherit_target(case);
@@ -523,7 +576,7 @@ fn model_request(case: &Case) -> Result<String, String> {
         }
         s
     };
-    s.push_str(&enc_ctx("X", &case.ctx));
+    s.push_str(&enc_ctx("X", &ctx_by_rule(case)));
     s.push_str(&enc_ctx("G", &case.global));
     Ok(s)
 }
@@ -2654,6 +2707,84 @@ fn oracle_tera_context_paths(out: &mut Vec<Check>) {
     }
 }
 
+
+/// The render context comes before the global context on EVERY entry point (render, render_to with
+/// a writer, render_str, include), for keys in both with different values, only-global and only-render
+/// keys, also when a template scope shadows them; and a context built with `Context::extend` holds
+/// the source's value for shared keys whatever the sizes of the two maps
+fn oracle_entry_points_and_extend(out: &mut Vec<Check>) {
+    let src = "{{ both }}|{{ only_r }}|{{ only_g }}|{{ missing | default(value=\"~\") }}|{% for both in [\"L\"] %}{{ both }}{% endfor %}|{% set only_g = \"S\" %}{{ only_g }}|{% include \"inc\" %}|{{ m.k }}{{ peek(name=\"both\") }}";
+    let inc = "({{ both }}{{ only_g }}{{ only_r }}{{ gg }})";
+    let expect = "R|r|g|~|L|S|(RSrG)|rkR";
+    let mut rm = tera::Map::new();
+    rm.insert("k".into(), Value::from("rk"));
+    let mut gm = tera::Map::new();
+    gm.insert("k".into(), Value::from("gk"));
+    let ctx = vec![("both".to_string(), Value::from("R")), ("only_r".to_string(), Value::from("r")), ("m".to_string(), Value::from(rm))];
+    let global = vec![("both".to_string(), Value::from("G")), ("only_g".to_string(), Value::from("g")), ("gg".to_string(), Value::from("G")), ("m".to_string(), Value::from(gm))];
+    for stream in ["oracle.entry.render", "oracle.entry.render_to"] {
+        out.push(Check {
+            oracle: "scope.context_before_global_on_every_entry_point",
+            case: Case { templates: vec![("main".into(), tpl(src)), ("inc".into(), tpl(inc))], ctx: ctx.clone(), global: global.clone(), stream: stream.into() },
+            expect: Expect::Text(expect.into()),
+        });
+        // autoescaping template name, empty render context, empty global context
+        out.push(Check {
+            oracle: "scope.context_before_global_on_every_entry_point",
+            case: Case { templates: vec![("main.html".into(), tpl("{{ both }}<{{ only_g | default(value=\"~\") }}>")), ("inc".into(), tpl(""))], ctx: vec![("both".into(), Value::from("<R>"))], global: vec![("both".into(), Value::from("<G>"))], stream: stream.into() },
+            expect: Expect::Text("&lt;R&gt;<~>".into()),
+        });
+        out.push(Check {
+            oracle: "scope.context_before_global_on_every_entry_point",
+            case: Case { templates: vec![("main".into(), tpl("{{ both }}{{ only_g }}")), ("inc".into(), tpl(""))], ctx: vec![], global: global.clone(), stream: stream.into() },
+            expect: Expect::Text("Gg".into()),
+        });
+    }
+    // render_str: same rule (the registered include is reachable from the one-off template)
+    out.push(Check {
+        oracle: "scope.context_before_global_on_every_entry_point",
+        case: Case { templates: vec![("__str".into(), tpl(src)), ("inc".into(), tpl(inc))], ctx: ctx.clone(), global: global.clone(), stream: "prefixes||str|".into() },
+        expect: Expect::Text(expect.into()),
+    });
+    // ---- Context::extend: the source wins on shared keys, whatever the sizes
+    let tsrc = "{% for k in [\"a\", \"b\", \"c\", \"d\", \"e\", \"f\", \"t_only\", \"s_only\"] %}{{ k }}={{ __tera_context[k] | default(value=\"~\") }};{% endfor %}";
+    let _ = tsrc;
+    let names = ["a", "b", "c", "d", "e", "f"];
+    // (keys of the target, keys of the source): shared keys get different values
+    let shapes: Vec<(Vec<&str>, Vec<&str>)> = vec![
+        (vec!["a"], vec!["a", "b", "c"]),
+        (vec!["a", "b"], vec!["a", "b", "c", "d", "e"]),
+        (vec!["a", "b", "c", "d", "e"], vec!["a"]),
+        (vec!["a", "b", "c"], vec!["a", "b", "c"]),
+        (vec!["a", "b", "c"], vec!["b", "c", "d", "e"]),
+        (vec![], vec!["a", "b"]),
+        (vec!["a", "b"], vec![]),
+        (vec!["f"], vec!["a", "b", "c", "d", "e", "f"]),
+        (vec!["a", "b", "c", "d", "e", "f"], vec!["e", "f"]),
+    ];
+    for (tk, sk) in shapes {
+        let mut ctx: Vec<(String, Value)> = Vec::new();
+        for k in &tk {
+            ctx.push((format!("t:{k}"), Value::from(format!("T{k}"))));
+        }
+        for k in &sk {
+            ctx.push((format!("s:{k}"), Value::from(format!("S{k}"))));
+        }
+        let mut expected = String::new();
+        let mut src = String::new();
+        for k in names {
+            src.push_str(&format!("{k}={{{{ {k} | default(value=\"~\") }}}};"));
+            let v = if sk.contains(&k) { format!("S{k}") } else if tk.contains(&k) { format!("T{k}") } else { "~".to_string() };
+            expected.push_str(&format!("{k}={v};"));
+        }
+        out.push(Check {
+            oracle: "context.extend_source_wins",
+            case: Case { templates: vec![("main".into(), tpl(&src))], ctx, global: vec![], stream: "oracle.ctx_extend".into() },
+            expect: Expect::Text(expected),
+        });
+    }
+}
+
 // ------------------------------------------------------------------ value-level operator matrix (C02)
 
 /// every encoding that can hold the integer (sign, magnitude)
@@ -3888,6 +4019,7 @@ pub fn run(prop: &str) {
         oracle_loop_fields_through_captures(&mut fixed);
         oracle_fallback_prefixes(&mut fixed);
         oracle_include_dag(&mut fixed);
+        oracle_entry_points_and_extend(&mut fixed);
         // render_block of blocks written inside captures (also C04's clause; c04e runs them too)
         oracle_inheritance_shapes(&mut fixed);
     }
